@@ -25,6 +25,7 @@ def run_shard(ctx, spec):
     mon = hj.Monitor(ctx, rules=False, final=True, replay=False)
     rnd = random.Random(ctx.seed * 1237 + spec['i'])
     ex = hj.Explorer(mon, rnd)
+    ex.float_heights = bool(spec.get('float'))
     if spec['w'] == 'bfs':
         ex.bfs(spec['nj'], spec['reg'], spec['jo'], part=spec['i'], nparts=spec['n'], split_depth=spec.get('split', 3), legal_only=True,
                max_states=spec.get('max_states'))
@@ -53,12 +54,14 @@ def shards(tier, seed):
         s = [{'w': 'bfs', 'nj': 2, 'reg': 2, 'jo': 2, 'i': i, 'n': 6} for i in range(6)]
         s += [{'w': 'bfs', 'nj': 3, 'reg': 1, 'jo': 1, 'i': i, 'n': 4} for i in range(4)]
         s += [{'w': 'random', 'n': 500, 'i': 50 + i} for i in range(6)]
+        s += [{'w': 'random', 'n': 500, 'i': 60 + i, 'float': True} for i in range(3)]
         s += [{'w': 'jumpoff', 'n': 700, 'i': 80 + i} for i in range(6)]
         s += [{'w': 'jumpoff', 'n': 700, 'i': 90 + i, 'deep': True} for i in range(4)]
         return s
     s = [{'w': 'bfs', 'nj': 2, 'reg': 3, 'jo': 2, 'i': i, 'n': 32, 'split': 4, 'max_states': 150000} for i in range(32)]
     s += [{'w': 'bfs', 'nj': 3, 'reg': 2, 'jo': 2, 'i': i, 'n': 48, 'split': 4, 'max_states': 150000} for i in range(48)]
     s += [{'w': 'random', 'n': 3200, 'i': 200 + i} for i in range(16)]
+    s += [{'w': 'random', 'n': 3200, 'i': 220 + i, 'float': True} for i in range(8)]
     s += [{'w': 'jumpoff', 'n': 6000, 'i': 300 + i} for i in range(16)]
     s += [{'w': 'jumpoff', 'n': 6000, 'i': 320 + i, 'deep': True} for i in range(16)]
     return s
